@@ -3,7 +3,7 @@
 import json, os, glob
 ROOT='/verif/seeded'
 det={}
-for f in ['MATRIX.tsv','MATRIX2.tsv','MATRIX3.tsv','MATRIX4.tsv','MATRIX5.tsv','MATRIX6.tsv','MATRIX7.tsv','MATRIX8.tsv','MATRIX9.tsv']:
+for f in ['MATRIX.tsv','MATRIX2.tsv','MATRIX3.tsv','MATRIX4.tsv','MATRIX5.tsv','MATRIX6.tsv','MATRIX7.tsv','MATRIX8.tsv','MATRIX9.tsv','MATRIX10.tsv']:
     p=os.path.join(ROOT,f)
     if not os.path.exists(p): continue
     for line in open(p):
